@@ -95,6 +95,7 @@ WITNESSES = [
     ('held record lost', lambda h: any(op['op'] == 'upd' and not op['reach'] and op['site'] in ('none', 'setitem', 'presend', 'sent') and last_site(h[i:]) != 'none' for i, op in enumerate(h))),
     ('repeated content', lambda h: len([op for op in h if op['op'] == 'upd' and op['site'] == 'none']) > len({op['c'] for op in h if op['op'] == 'upd' and op['site'] == 'none'})),
     ('repeated key', lambda h: len([op for op in h if op['op'] == 'upd' and op['site'] in ('none', 'presend', 'sent', 'setitem')]) > len({op['k'] for op in h if op['op'] == 'upd' and op['site'] in ('none', 'presend', 'sent', 'setitem')})),
+    ('same content offered again after a failed move', lambda h: any(op['op'] == 'upd' and op['site'] == 'movefail' and any(o2['op'] == 'upd' and o2['site'] == 'none' and o2['c'] == op['c'] for o2 in h[i + 1 :]) and not any(o2['op'] in ('open', 'close', 'crash') for o2 in h[i + 1 :]) for i, op in enumerate(h))),
     ('file moved then crash', lambda h: h[-1]['op'] == 'upd' and h[-1]['site'] == 'moved' and h[-1]['c'] not in {op['c'] for op in h[:-1]}),
 ]
 
@@ -118,7 +119,7 @@ def select(cases, hist):
     for _name, pred in WITNESSES:
         for h in [h for h in cases if pred(h)][:1]:
             take(h)
-    for h in hist[:2]:
+    for h in (hist if len(hist) <= 80 else hist[:2]):
         take(h)
     rest = []
     queues = [by[k] for k in sorted(by)] + ([hist] if hist else [])
@@ -170,6 +171,8 @@ def count(files, counters):
                         counters['record_held_back'] += 1
                     if ev == 'Record' and prev and any(p[0] == st['uk'] for p in prev['st']['prime']):
                         counters['record_overwrites_entry'] += 1
+                    if ev == 'MoveFails':
+                        counters['failed_moves_survived'] += 1
                     if ev == 'Crash':
                         counters['crash_at_' + s['obs']['site']] += 1
                         names = {p[1] for p in st['prime']}
@@ -246,7 +249,8 @@ def run(pid, tier, seed, replay=None):
             f_hist = ex.submit(gen, chk, 'gen_hist', 'HistSpec', 'EmitHist', 'K4', 'C3', 4, 1, False)
         else:
             f_gen = ex.submit(gen, chk, 'gen_trans', 'GenSpec', 'EmitTrans', 'K3', 'C3', 2, 2)
-            f_hist = None
+            # every uninterrupted history of three updates over two keys and two contents (shared content, overwrites)
+            f_hist = ex.submit(gen, chk, 'gen_hist', 'HistSpec', 'EmitHist', 'K2', 'C2', 3, 1, False)
         cases = f_gen.result()
         hist = f_hist.result() if f_hist else []
         total, nhist = len(cases), len(hist)
